@@ -99,7 +99,9 @@ class Check:
         s.dumps.append(meta)
         return mir.load(path)
     def decls(s, prefer=None):
-        return rustdecl.load_repo(REPO, prefer)
+        c = s.__dict__.setdefault('_decls', {})
+        if prefer not in c: c[prefer] = rustdecl.load_repo(REPO, prefer)
+        return c[prefer]
     def engine(s, fns, decls, **kw):
         kw.setdefault('seed', s.seed)
         kw.setdefault('models', models.MODELS)
@@ -111,7 +113,7 @@ class Check:
         s.models_used |= set(eng.modelled); s.opaque |= set(eng.opaque_calls)
 
     # ---- queries
-    def solve(s, name, constraints, timeout_s=None, want_model=True):
+    def solve(s, name, constraints, timeout_s=None, want_model=True, cross=False):
         """-> ('sat', model) | ('unsat', None); raises Inconclusive on unknown"""
         sol = z3.Solver(); sol.set('random_seed', s.seed)
         if timeout_s is None: timeout_s = s.pick(120, 900)
@@ -119,21 +121,56 @@ class Check:
         for c in constraints: sol.add(c)
         t = time.time(); r = sol.check(); dt = time.time() - t
         s.solver_s += dt
-        s.queries.append({'name': name, 'result': str(r), 's': round(dt, 3)})
+        q = {'name': name, 'result': str(r), 's': round(dt, 3)}
+        s.queries.append(q)
         if r == z3.unknown:
             raise Inconclusive(f'solver returned unknown on query {name}: {sol.reason_unknown()}')
+        if cross and s.cross_enabled() and dt < 20:
+            other = s.cross_check(sol)
+            q['cross'] = other
+            for who, res in other.items():
+                if res in ('sat', 'unsat') and res != str(r):
+                    raise Inconclusive(f'solvers disagree on query {name}: z3 {z3.get_version_string()} says {r}, {who} says {res}')
         return (str(r), sol.model() if r == z3.sat else None)
     def obligation(s, name, constraints, base=None, **kw):
         """an obligation is discharged when `constraints` (assumptions + negated property) are unsat.
         `base` (the assumptions alone) must be satisfiable, otherwise the obligation would hold vacuously."""
         s.obligations += 1
-        r, m = s.solve(name, constraints, **kw)
+        r, m = s.solve(name, constraints, cross=True, **kw)
         if r == 'unsat':
             if base is not None:
                 rb, _ = s.solve(name + ' [assumptions satisfiable]', base)
                 if rb != 'sat': raise Inconclusive(f'vacuous obligation (assumptions are unsatisfiable): {name}')
             s.discharged += 1
         return r, m
+
+    # ---- second opinion: the same query (SMT-LIB2 text produced by z3's printer) decided by z3 5.x and cvc5
+    def cross_enabled(s):
+        v = os.environ.get('VERIF_CROSS')
+        if v == '0': return False
+        if v != '1' and s.quick: return False
+        s.__dict__.setdefault('_crossed', 0)
+        return s._crossed < int(os.environ.get('VERIF_CROSS_MAX', '25'))
+    def cross_check(s, sol):
+        import tempfile
+        s._crossed += 1
+        txt = '(set-logic ALL)\n' + sol.to_smt2()
+        out = {}
+        with tempfile.NamedTemporaryFile('w', suffix='.smt2', delete=False) as f: f.write(txt); path = f.name
+        try:
+            for who, cmd in (('z3-new', ['z3-new', '-T:60', path]), ('cvc5', ['cvc5', '--lang', 'smt2', '--tlimit=60000', path])):
+                try:
+                    r = subprocess.run(cmd, stdout=subprocess.PIPE, stderr=subprocess.STDOUT, text=True, timeout=90)
+                    lines = [l.strip() for l in r.stdout.splitlines() if l.strip()]
+                    res = next((l for l in reversed(lines) if l in ('sat', 'unsat', 'unknown', 'timeout')), 'error')
+                    if any(l.startswith('(error') for l in lines):
+                        res = 'error'; s.notes.append(f'cross-check {who}: ' + next(l for l in lines if l.startswith('(error'))[:200]) if len([n for n in s.notes if n.startswith('cross-check')]) < 3 else None
+                except Exception as e:
+                    res = 'unavailable'
+                out[who] = res
+        finally:
+            os.unlink(path)
+        return out
 
     # ---- native replay
     def replay(s):
@@ -234,6 +271,8 @@ class Check:
             'obligations': s.obligations, 'discharged': s.discharged,
             'functions_encoded': s.functions, 'bounds': s.bounds, 'queries': s.queries[:400], 'n_queries': len(s.queries),
             'solver_s': round(s.solver_s, 2), 'solver': f'z3 {z3.get_version_string()}',
+            'cross_checked': {'queries': len([q for q in s.queries if q.get('cross')]), 'z3-new_agrees': len([q for q in s.queries if q.get('cross', {}).get('z3-new') == q['result']]),
+                              'cvc5_agrees': len([q for q in s.queries if q.get('cross', {}).get('cvc5') == q['result']]), 'note': 'obligation queries re-decided from z3\'s SMT-LIB2 text by z3 5.x and cvc5 (thorough tier or VERIF_CROSS=1; at most VERIF_CROSS_MAX per process); a sat/unsat disagreement makes the check inconclusive'},
             'models_used': sorted(s.models_used), 'opaque_calls': sorted(s.opaque), 'mir_dumps': s.dumps, 'notes': s.notes,
             'known_findings_matched': s.known_hits,
             'explanation': 'states = symbolic paths explored by M2S over the MIR of the listed functions; transitions = MIR statements '
